@@ -313,7 +313,7 @@ def check(ctx):
                                 break
         # ---- compound contracts through the dictionary of strings and the human-readable file: alternative by alternative
         if k % 6 == 2:
-            compound_roundtrip(ctx, rng, stats)
+            ctx.attempt("serialize:compound", {"case": "compound contract round trip number %d of seed %d" % (k, ctx.seed)}, lambda: compound_roundtrip(ctx, rng, stats))
         recent.append((k1, c))
         del recent[:-4]
         # ---- string form
